@@ -242,11 +242,12 @@ FAULTS = ["none", "reflect_raises", "fixture_missing", "index_add_raises", "log_
 
 def _turn(reflection_on, fault, dry=False):
     W.reset_globals()
+    reflection_on = True if reflection_on else False
     over = {"t1": {"decay": {"mode": "exp_floor", "rate": 0.6, "floor": 0.05}},
             "t3": {"allow_reflection": reflection_on, "reflection": {"backend": "rulebased", "summary_tokens": 8, "topk_snippets": 2, "embed": False, "log": True}},
             "t4": {"snapshot_every_n_turns": 1000},
             "scheduler": {"budgets": {"ops_reflection": 2, "time_ms_reflection": 5000}}}
-    cfg = W.make_cfg(over)
+    cfg = W.make_cfg(over, memo=("c19", reflection_on))
     state = W.make_state()
     added = []
 
